@@ -102,7 +102,7 @@ def ensure(config="default"):
     h = tree_hash()
     d = os.path.join(CACHE, h, config)
     want = CONFIG_CRATES.get(config, ["profirust"])
-    lock = open(os.path.join(CACHE, ".lock"), "w")
+    lock = open(os.path.join(CACHE, ".lock-" + h), "w")  # per tree: different trees extract in parallel
     fcntl.flock(lock, fcntl.LOCK_EX)
     try:
         if not all(os.path.exists(os.path.join(d, c + ".json")) for c in want):
@@ -126,16 +126,20 @@ def ensure(config="default"):
 
 
 def _gc(keep):
-    """Keep the cache small: drop all but the 6 most recent tree hashes."""
+    """Keep the cache small: drop all but the 24 most recent tree hashes."""
     ents = []
     for e in os.listdir(CACHE):
         p = os.path.join(CACHE, e)
         if os.path.isdir(p) and not e.startswith("facts-"):
             ents.append((os.path.getmtime(p), e))
     ents.sort(reverse=True)
-    for _, e in ents[6:]:
+    for _, e in ents[24:]:
         if e != keep:
             shutil.rmtree(os.path.join(CACHE, e), ignore_errors=True)
+            try:
+                os.unlink(os.path.join(CACHE, ".lock-" + e))
+            except OSError:
+                pass
 
 
 _loaded = {}
